@@ -36,6 +36,7 @@ type C06Case struct {
 	// alias
 	Doc   []byte `json:"doc,omitempty"`
 	Entry int    `json:"entry,omitempty"`
+	Cfg   int    `json:"cfg,omitempty"` // alias mode: which frozen configuration decodes (see c06Cfgs)
 }
 
 type C06Op struct {
@@ -48,6 +49,13 @@ type C06Op struct {
 func init() { register("C06", func() Case { return &C06Case{} }) }
 
 var c06Ops = []string{"marshal", "marshalstring", "indent", "encode", "encodeinto", "node", "raw", "stream", "decode", "gc"}
+// c06Cfgs: configurations under which Unmarshal([]byte) must hand out caller-owned data.
+var c06Cfgs = []sonic.API{
+	sonic.ConfigDefault, sonic.ConfigStd, sonic.ConfigFastest,
+	sonic.Config{CopyString: true}.Froze(), sonic.Config{CopyString: true, UseNumber: true}.Froze(), sonic.Config{UseNumber: true}.Froze(),
+	sonic.Config{UseInt64: true, CopyString: true, ValidateString: true}.Froze(), sonic.Config{NoValidateJSONSkip: true, UseNumber: true}.Froze(),
+}
+
 var c06AliasEntries = []string{"Unmarshal([]byte)->interface{}", "Unmarshal([]byte)->struct", "Unmarshal([]byte)->RawMessage", "Get([]byte)", "GetWithOptions(CopyReturn)", "UnmarshalString+CopyString", "StreamDecoder", "Unmarshal([]byte)->map[string]string", "Unmarshal([]byte)->ast.Node"}
 
 func drawC06(t *rapid.T) Case {
@@ -87,6 +95,7 @@ func drawC06(t *rapid.T) Case {
 			c.Doc = []byte(`{"a":"xyz","b":["s",1]}`)
 		}
 		c.Entry = rapid.IntRange(0, len(c06AliasEntries)-1).Draw(t, "entry")
+		c.Cfg = rapid.IntRange(0, len(c06Cfgs)-1).Draw(t, "cfg")
 	}
 	return c
 }
@@ -345,7 +354,7 @@ func (c *C06Case) runAlias() (res stat.Result) {
 	switch c.Entry {
 	case 0:
 		var x interface{}
-		if err := sonic.Unmarshal(in, &x); err != nil {
+		if err := c06Cfgs[c.Cfg].Unmarshal(in, &x); err != nil {
 			return
 		}
 		copyOf = dump(x)
@@ -357,7 +366,7 @@ func (c *C06Case) runAlias() (res stat.Result) {
 			B interface{}
 			S string
 		}
-		if err := sonic.Unmarshal(in, &x); err != nil {
+		if err := c06Cfgs[c.Cfg].Unmarshal(in, &x); err != nil {
 			return
 		}
 		copyOf = dump(x)
@@ -365,7 +374,7 @@ func (c *C06Case) runAlias() (res stat.Result) {
 		got = dump(x)
 	case 2:
 		var x json.RawMessage
-		if err := sonic.Unmarshal(in, &x); err != nil {
+		if err := c06Cfgs[c.Cfg].Unmarshal(in, &x); err != nil {
 			return
 		}
 		copyOf = string(append([]byte(nil), x...))
@@ -416,7 +425,7 @@ func (c *C06Case) runAlias() (res stat.Result) {
 		got = dump(v)
 	case 7:
 		var x map[string]string
-		if err := sonic.Unmarshal(in, &x); err != nil {
+		if err := c06Cfgs[c.Cfg].Unmarshal(in, &x); err != nil {
 			return
 		}
 		copyOf = dump(x)
@@ -424,7 +433,7 @@ func (c *C06Case) runAlias() (res stat.Result) {
 		got = dump(x)
 	default:
 		var n ast.Node
-		if err := sonic.Unmarshal(in, &n); err != nil {
+		if err := c06Cfgs[c.Cfg].Unmarshal(in, &n); err != nil {
 			return
 		}
 		r1, _ := n.Raw()
@@ -434,6 +443,7 @@ func (c *C06Case) runAlias() (res stat.Result) {
 		got = r2
 	}
 	res.NonTrivial = len(c.Doc) > 8 && bytes.IndexByte(c.Doc, '"') >= 0
+	res.Classes = append(res.Classes, fmt.Sprintf("alias-cfg:%d", c.Cfg))
 	if got != copyOf {
 		res.Err = fmt.Errorf("%s: decoded data changed when the caller overwrote its input buffer: %s vs %s (doc %s)", c06AliasEntries[c.Entry], clipS(got), clipS(copyOf), clipB(c.Doc))
 	}
